@@ -500,6 +500,8 @@ type writeReq struct {
 	// (nil, nil) means "remove the object".
 	compute func(cur map[string]any) (map[string]any, error)
 	delOpts *client.DeleteOptions
+	// collection: the delete is one element of a deletecollection request
+	collection bool
 }
 
 // do runs the common write path: fault injection, admission, compute, validation, storage,
@@ -562,6 +564,7 @@ func (c *Client) do(req *writeReq) (map[string]any, error) {
 		if req.verb == "delete" {
 			ar.New = nil
 			ar.Options = req.delOpts
+			ar.Collection = req.collection
 		}
 		admit := append([]AdmitFunc(nil), w.admit...)
 		w.mu.Unlock()
@@ -1062,9 +1065,9 @@ func (c *Client) Delete(_ context.Context, obj client.Object, opts ...client.Del
 	return err
 }
 
-func (c *Client) delete(gvk schema.GroupVersionKind, k Key, do *client.DeleteOptions) (map[string]any, error) {
+func (c *Client) delete(gvk schema.GroupVersionKind, k Key, do *client.DeleteOptions, collection ...bool) (map[string]any, error) {
 	w := c.w
-	req := &writeReq{verb: "delete", gvk: gvk, key: k, dryRun: isDryRun(do.DryRun), delOpts: do}
+	req := &writeReq{verb: "delete", gvk: gvk, key: k, dryRun: isDryRun(do.DryRun), delOpts: do, collection: len(collection) > 0 && collection[0]}
 	if do.PropagationPolicy != nil {
 		req.patchType = string(*do.PropagationPolicy)
 	}
@@ -1161,7 +1164,7 @@ func (c *Client) DeleteAllOf(ctx context.Context, obj client.Object, opts ...cli
 	})
 	for _, k := range keys {
 		do := dao.DeleteOptions
-		if _, err := c.delete(gvk, k, &do); err != nil && !kerrors.IsNotFound(err) {
+		if _, err := c.delete(gvk, k, &do, true); err != nil && !kerrors.IsNotFound(err) {
 			return err
 		}
 	}
